@@ -49,6 +49,12 @@ class Wrap(object):
 
     def samples(self, X):
         if self.kind == "vector":
+            if getattr(self, "first_int", False):
+                # a list of samples, the first of which is held in single precision (its values are exactly
+                # representable there); the others are doubles
+                rows = [x.copy() for x in X]
+                rows[0] = rows[0].astype(np.float32)
+                return rows
             return X.astype(np.int64) if getattr(self, "int_data", False) else X.copy()
         return [self.template.from_vector(x.copy()) for x in X]
 
@@ -167,6 +173,10 @@ class PCABook(Machine):
             self.X = self.X + (10.0 ** off) * float(np.abs(self.X).std()) * np.where(np.arange(d) % 2, 1.0, -0.7)
             self.ctx.probe("mean_much_larger_than_spread")
         self.offset = off if (off and self.centred and not self.int_data) else 0
+        if kind == "vector" and not self.int_data and not self.offset and cfg["seed"] % 8 == 5:
+            self.X[0] = self.X[0].astype(np.float32).astype(float)
+            self.w.first_int = True
+            self.ctx.probe("list_of_samples_first_one_single_precision")
         self.scale = float(np.abs(self.X - (self.X.mean(0) if self.centred else 0)).max())
         if cfg.get("scale_exp", 0) < 0:
             ctx0 = self.ctx
@@ -280,7 +290,13 @@ class PCABook(Machine):
                 return
             f = float(cr[j])
             bad = 0
-            ctx.probe("fraction_equal_to_an_own_cumulative_ratio")
+            if op["j"] % 2 == 0 and j + 1 < cr.size and float(cr[j + 1]) > f * (1 + 1e-3):
+                # a few parts in a million MORE than the first j+1 components explain: one more component is needed
+                f = f * (1 + 4e-6)
+                j = j + 1
+                ctx.probe("fraction_just_above_an_own_cumulative_ratio")
+            else:
+                ctx.probe("fraction_equal_to_an_own_cumulative_ratio")
         else:
             j = op["j"] % e.k          # want exactly j+1 components
             lo = float(self.cum[j - 1]) if j > 0 else 0.0
